@@ -100,7 +100,8 @@ class C08(Property):
                 events.append([rnd.choice(["push_shared", "push_view", "push_incompatible", "push_wrong_size"]), tcur, "shaped"])
             else:
                 events.append(["pull", rnd.choice(["on", "between", "mid", "before", "after", "between", "on_old"]), rnd.random()])
-        return dict(grid=g, units=list(units), mask=mask_mode, events=events, mseed=rnd.randrange(1 << 30))
+        return dict(grid=g, units=list(units), mask=mask_mode, events=events, mseed=rnd.randrange(1 << 30),
+                    memory=rnd.choice([None, None, None, 0, 64, 300]))
 
     # ----------------------------------------------------------------------------------
     def run(self, spec):
@@ -130,11 +131,25 @@ class C08(Property):
                 mode = "none"
         pmask = {"none": fm.Mask.FLEX, "flex_masked": fm.Mask.FLEX, "fixed": ma, "fixed_flexcons": ma, "NONE": fm.Mask.NONE}[mode]
         cmask = {"none": fm.Mask.FLEX, "flex_masked": fm.Mask.FLEX, "fixed": mb, "fixed_flexcons": fm.Mask.FLEX, "NONE": fm.Mask.NONE}[mode]
+        loc = None
+        if spec.get("memory") is not None:
+            import os
+
+            loc = "spill-c08"
+            os.makedirs(loc, exist_ok=True)
+            out.count("cases_with_memory_limit")
         try:
-            o, (inp,) = slots.simple_link(fm.Info(time=slots.T0, grid=ga, units=pu, mask=pmask), fm.Info(time=slots.T0, grid=gb, units=cu, mask=cmask))
+            o, (inp,) = slots.simple_link(fm.Info(time=slots.T0, grid=ga, units=pu, mask=pmask), fm.Info(time=slots.T0, grid=gb, units=cu, mask=cmask),
+                                          memory=spec.get("memory"), location=loc)
         except fm.FinamMetaDataError as e:
             out.viol("link_refused", f"compatible link refused: {e}", spec=spec)
             return out
+        try:
+            return self._drive(out, spec, o, inp, g, ga, gb, base_a, base_b, order, ma, mb, mode, pu, cu, shape_a, shape_b)
+        finally:
+            o.finalize()
+
+    def _drive(self, out, spec, o, inp, g, ga, gb, base_a, base_b, order, ma, mb, mode, pu, cu, shape_a, shape_b):
         hist = History()
         last_arr = None
         forms_seen, pulls_between = set(), 0
@@ -156,8 +171,8 @@ class C08(Property):
                     payload, last_arr = self._payload(vals, form, pu, order, ma if mode == "flex_masked" else None, mode, not g["cls"].startswith("nogrid"))
                     forms_seen.add(form)
                 elif kind in ("push_shared", "push_view"):
-                    if last_arr is None:
-                        continue
+                    if last_arr is None or (o.data and isinstance(o.data[-1][1], str)):
+                        continue  # nothing to share memory with (previous entry lives on disk)
                     payload = last_arr if kind == "push_shared" else last_arr.reshape(last_arr.shape)[...]
                     expect_error = fm.FinamDataError
                 elif kind == "push_incompatible":
